@@ -828,6 +828,53 @@ def sk_lower_le_known(p):
     return {"lower": lo, "upper": up, "value": val}
 
 
+def sk_lower_le_product_sup(p):
+    """k = 1 on C^2 (x) C^N: the lower bound is at most the supremum of <a (x) b| X |a (x) b>, certified by a grid over the Bloch sphere of a plus a
+    Lipschitz slack (for fixed a the maximum over b is an eigenvalue).  Operators X = lam I - (P + Q^Gamma) built from the 2 (x) 4 PPT-entangled
+    Horodecki states: the PPT relaxation is NOT exact here, so a bound copied from it overshoots the S(1)-norm."""
+    import numpy as np
+
+    from vt.contract import Violation
+
+    dA, dB = 2, 4
+    b = float(p["b"])
+    r = b * np.eye(8)
+    r[4, 4] = r[7, 7] = (1 + b) / 2
+    r[4, 7] = r[7, 4] = np.sqrt(1 - b * b) / 2
+    for i, j in [(0, 5), (1, 6), (2, 7)]:
+        r[i, j] = r[j, i] = b
+    rho = r / (7 * b + 1)
+
+    def pta(m):
+        return m.reshape(dA, dB, dA, dB).transpose(2, 1, 0, 3).reshape(8, 8)
+
+    def kerproj(m):
+        w, v = np.linalg.eigh(m)
+        ker = v[:, w < 1e-10]
+        return ker @ ker.conj().T
+
+    Y = kerproj(rho) + pta(kerproj(pta(rho)))
+    lam = float(np.linalg.eigvalsh(Y)[-1])
+    X = lam * np.eye(8) - Y
+    xr = X.reshape(dA, dB, dA, dB)
+    n_theta, n_phi = 800, 1600
+    phis = (np.arange(n_phi) + 0.5) * 2 * np.pi / n_phi
+    best = -np.inf
+    for th in (np.arange(n_theta) + 0.5) * np.pi / n_theta:
+        a = np.stack([np.full(n_phi, np.cos(th / 2), dtype=complex), np.exp(1j * phis) * np.sin(th / 2)], axis=1)
+        blocks = np.einsum("ni,ijkl,nk->njl", a.conj(), xr, a)
+        best = max(best, float(np.linalg.eigvalsh(blocks)[:, -1].max()))
+    ang = np.hypot(np.pi / n_theta / 2, 2 * np.pi / n_phi / 2)
+    eigs = np.linalg.eigvalsh(X)
+    sup = best + float(eigs[-1] - eigs[0]) * np.sin(ang / 2)
+    lo, up = _sk_call(dict(p, dims=[dA, dB], k=1), X)
+    if lo > sup + 2e-4:
+        raise Violation("sk_operator_norm lower bound %.6f exceeds the supremum over product vectors (grid maximum %.6f, certified <= %.6f) for X built from the 2x4 Horodecki state b=%g; the PPT relaxation has value %.6f" % (lo, best, sup, b, lam))
+    if up < best - 2e-4:
+        raise Violation("sk_operator_norm upper bound %.6f is below a value %.6f attained by a product vector (2x4 Horodecki construction, b=%g)" % (up, best, b))
+    return {"lower": lo, "upper": up, "grid": best, "sup": sup}
+
+
 def _truncate(v, dA, dB, k):
     """best Schmidt-rank-k approximation of v, normalised"""
     import numpy as np
@@ -1006,6 +1053,7 @@ CLAUSES = {
     "sknorm.returns_normally": sk_returns,
     "sknorm.upper_ge_known": sk_upper_ge_known,
     "sknorm.lower_le_known": sk_lower_le_known,
+    "sknorm.lower_le_product_sup": sk_lower_le_product_sup,
     "sknorm.upper_ge_attained": sk_upper_ge_attained,
     "blockpos.accepts": bp_accepts,
     "blockpos.rejects": bp_rejects,
@@ -1031,6 +1079,7 @@ _FN = {
     "sknorm.returns_normally": "sk_operator_norm",
     "sknorm.upper_ge_known": "sk_operator_norm",
     "sknorm.lower_le_known": "sk_operator_norm",
+    "sknorm.lower_le_product_sup": "sk_operator_norm",
     "sknorm.upper_ge_attained": "sk_operator_norm",
     "blockpos.accepts": "is_block_positive",
     "blockpos.rejects": "is_block_positive",
@@ -1219,6 +1268,9 @@ def cases(tier, seed):
             # W + delta*I is 2-block positive iff delta >= s0 s1 (= 1/2 for two equal coefficients)
             add("blockpos.rejects", dict(dims=d, k=2, family="witness-k2", r=2, profile="equal", delta=0.2, seed=seed, effort=eff), "is_block_positive/witness-k2/%s" % _eq(d), True)
             add("blockpos.accepts", dict(dims=d, k=2, family="witness-plus", r=2, profile="equal", delta=0.6, seed=seed, effort=eff), "is_block_positive/witness-k2-plus/%s" % _eq(d), True)
+    # 2 (x) 4: operators built from PPT-entangled states, where the PPT relaxation is strictly above the S(1)-norm
+    for b_ in (0.3, 0.5):
+        add("sknorm.lower_le_product_sup", dict(b=b_, seed=seed, effort=1, dimform="list"), "sk_operator_norm/horodecki-2x4/k=1", True)
     return out
 
 
